@@ -91,3 +91,37 @@ func VerifC04Compare() {
 		vObserveInt("diffd", int(d))
 	}
 }
+
+// VerifC04ConstraintShape: constraints of a given shape whose operands are arbitrary bytes: the compound forms
+// (hyphen ranges, and-lists, or-lists, comma lists, bracketed ranges) need more bytes than the arbitrary-string
+// harnesses reach.
+var c04Shapes = []string{"A - B", "A || B", "A B", "A, B", "[A,B]", "(A,B)", ">=A <B", "A - B || A", "^A ~B", "[A,)", "A.*"}
+
+func VerifC04ConstraintShape() {
+	sys := System(vParam("sys"))
+	a := vBytes("a", vParam("n"))
+	b := vBytes("b", vParam("m"))
+	s := ""
+	for _, ch := range []byte(c04Shapes[vParam("shape")]) {
+		switch ch {
+		case 'A':
+			s += a
+		case 'B':
+			s += b
+		default:
+			s += string([]byte{ch})
+		}
+	}
+	c, err := sys.ParseConstraint(s)
+	vObserveBool("accepted", err == nil)
+	if err != nil {
+		vCover(true, "rejected")
+		return
+	}
+	vCover(true, "accepted")
+	_ = c.String()
+	set := c.Set()
+	vObserveStr("set", set.String())
+	_ = set.Empty()
+	_ = c.Match(a)
+}
